@@ -14,7 +14,6 @@ only `z`, a `Subtract` that negates its argument in place: each changes a genera
 namespace ElementApiTies
 variable {α : Type} (F : FieldOps α)
 
-theorem identity_tie : GenElementAPI.identity F = Hand.Element.identity F := rfl
 theorem add_tie (e : Pt α) (v : Option (Pt α)) : GenElementAPI.add_e_v F e v = Hand.Element.add F e v := by
   cases v <;> rfl
 theorem addSelf_tie (e : Pt α) : GenElementAPI.add_ev F e = Hand.Element.addSelf F e := rfl
@@ -23,8 +22,5 @@ theorem negate_tie (e : Pt α) : GenElementAPI.negate F e = Hand.Element.negate 
 theorem subtract_tie (e : Pt α) (v : Option (Pt α)) : GenElementAPI.subtract_e_v F e v = Hand.Element.subtract F e v := by
   cases v <;> rfl
 theorem subtractSelf_tie (e : Pt α) : GenElementAPI.subtract_ev F e = Hand.Element.subtract F e (some e) := rfl
-/-- `Set` and `Copy` store / return exactly the coordinates of their source (value copies, no sharing) -/
-theorem set_tie (v : Pt α) : GenElementAPI.set F v = v := rfl
-theorem copy_tie (e : Pt α) : GenElementAPI.copy F e = e := rfl
 
 end ElementApiTies
